@@ -1,7 +1,8 @@
 SPECIFICATION Spec
 CONSTANTS
-  Mode = "variants"
-  AtomSet <- MidAtoms
+  Mode = "model"
+  AtomSet <- AllAtoms
+  PairAtoms <- QuickAtoms
   InnerAtoms <- Zeros
   PairOuter = FALSE
   Dump = TRUE
